@@ -424,3 +424,154 @@ def run(ctx, R):
         RC + ':get_providers_with_resource', RC + ':_usage_select',
         DBF])
     R.count('R13.5', n, 7)
+
+
+PARSERS = ['placement.util:normalize_member_of_qs_param',
+           'placement.util:normalize_member_of_qs_params',
+           'placement.util:normalize_traits_qs_param',
+           'placement.util:normalize_traits_qs_params',
+           'placement.util:normalize_resources_qs_param']
+
+
+def _prefix_tests(test):
+    """[(receiver src, literal, positive)] for startswith tests in a
+    condition (conjunctions and negations followed)."""
+    out = []
+
+    def rec(e, pol):
+        if isinstance(e, ast.UnaryOp) and isinstance(e.op, ast.Not):
+            rec(e.operand, not pol)
+        elif isinstance(e, ast.BoolOp):
+            for v in e.values:
+                rec(v, pol)
+        elif isinstance(e, ast.Call) and isinstance(
+                e.func, ast.Attribute) and e.func.attr == 'startswith' and \
+                e.args and isinstance(e.args[0], ast.Constant):
+            out.append((src(e.func.value), e.args[0].value, pol))
+    rec(test, True)
+    return out
+
+
+def r136(ctx, R):
+    """Parsers of member_of / required: a stripped prefix has the length of
+    the prefix tested, and '!' forms feed the forbidden side only."""
+    prog = ctx.prog
+    n = 0
+    for q in PARSERS:
+        f = prog.func(q)
+        for node in own_nodes(f.node):
+            if not isinstance(node, ast.If):
+                continue
+            pts = [p for p in _prefix_tests(node.test) if p[2]]
+            if len(pts) != 1:
+                continue
+            recv, lit, _ = pts[0]
+            n += 1
+            # slices of the same receiver in the taken branch
+            bad = []
+            for st in node.body:
+                for x in ast.walk(st):
+                    if isinstance(x, ast.Subscript) and src(
+                            x.value) == recv and isinstance(
+                                x.slice, ast.Slice) and x.slice.lower is \
+                            not None and isinstance(
+                                x.slice.lower, ast.Constant):
+                        if x.slice.lower.value != len(lit) or \
+                                x.slice.upper is not None:
+                            bad.append(src(x))
+                    if isinstance(x, ast.Call) and isinstance(
+                            x.func, ast.Attribute) and x.func.attr in (
+                                'lstrip', 'strip') and src(
+                                    x.func.value) == recv and x.args and \
+                            isinstance(x.args[0], ast.Constant) and \
+                            not lit.startswith(str(x.args[0].value)):
+                        bad.append(src(x))
+            R.ob('R13.6', '%s:strip-%r' % (f.qbase.split(':')[1], lit),
+                 not bad,
+                 'the prefix removed from the value is exactly the prefix '
+                 'that was tested (%r -> [%d:])' % (lit, len(lit)), bad,
+                 func=f, node=node)
+            # polarity: names with "forbidden" are fed only under '!'
+            assigned = set()
+            for st in node.body:
+                for x in ast.walk(st):
+                    if isinstance(x, ast.Assign):
+                        for t in x.targets:
+                            assigned.add(src(t))
+            forb = any('forbidden' in a for a in assigned)
+            req = any(a.startswith('required') or a == 'any_traits'
+                      for a in assigned)
+            okp = True
+            if lit.startswith('!'):
+                okp = not req
+            elif forb and not req:
+                okp = False
+            R.ob('R13.6', '%s:polarity-%r' % (f.qbase.split(':')[1], lit),
+                 okp,
+                 "values tested with a '!' prefix feed the forbidden side, "
+                 "the others the required side", sorted(assigned), func=f,
+                 node=node, nontrivial=False)
+    R.count('R13.6', n, 4)
+    # the order of the startswith tests: the longer '!in:' before '!'
+    f = prog.func('placement.util:normalize_member_of_qs_param')
+    chain = []
+    for node in own_nodes(f.node):
+        if isinstance(node, ast.If):
+            pts = [p for p in _prefix_tests(node.test) if p[2]]
+            if len(pts) == 1 and not C.guarding_ifs(node, f.node):
+                cur = node
+                while True:
+                    p = [x for x in _prefix_tests(cur.test) if x[2]]
+                    if len(p) == 1:
+                        chain.append(p[0][1])
+                    if len(cur.orelse) == 1 and isinstance(
+                            cur.orelse[0], ast.If):
+                        cur = cur.orelse[0]
+                    else:
+                        break
+                break
+    ok = True
+    for i, a in enumerate(chain):
+        for b in chain[i + 1:]:
+            if b.startswith(a) and b != a:
+                ok = False
+    R.ob('R13.6', 'normalize_member_of_qs_param:prefix-order', ok and
+         len(chain) >= 3,
+         'a longer prefix is tested before any of its own prefixes '
+         "('!in:' before '!')", chain, func=f)
+    # the handler-level pairing: required groups are appended, forbidden
+    # ones are united
+    g = prog.func('placement.util:normalize_member_of_qs_params')
+    apps = [c for c in own_nodes(g.node) if isinstance(c, ast.Call)
+            and isinstance(c.func, ast.Attribute) and c.func.attr ==
+            'append' and src(c.func.value).startswith('required')]
+    ors = [a for a in own_nodes(g.node) if isinstance(a, ast.AugAssign)
+           and isinstance(a.op, ast.BitOr)
+           and src(a.target).startswith('forbidden')]
+    okp = len(apps) == 1 and src(apps[0].args[0]) == 'required' and \
+        len(ors) == 1 and src(ors[0].value) == 'forbidden'
+    loops = [x for x in own_nodes(g.node) if isinstance(x, ast.For)]
+    okp = okp and len(loops) == 1 and 'getall' in src(loops[0].iter) and \
+        not [x for x in own_nodes_of(loops[0])
+             if isinstance(x, (ast.Break, ast.Continue))]
+    R.ob('R13.6', 'normalize_member_of_qs_params:accumulation', okp,
+         'every member_of value contributes: its required set is appended '
+         '(AND of any-of groups), its forbidden set is united',
+         'appends=%d unions=%d' % (len(apps), len(ors)), func=g)
+    t = prog.func('placement.util:normalize_traits_qs_params')
+    adds = [a for a in own_nodes(t.node) if isinstance(a, ast.AugAssign)]
+    okt = sorted((src(a.target), type(a.op).__name__, src(a.value))
+                 for a in adds) == [('forbidden_traits', 'BitOr', 'fts'),
+                                    ('required_traits', 'Add', 'rts')]
+    R.ob('R13.6', 'normalize_traits_qs_params:accumulation', okt,
+         'every required value contributes its any-of groups (appended) '
+         'and its forbidden traits (united)',
+         [(src(a.target), src(a.value)) for a in adds], func=t)
+
+
+_run_c13 = run
+
+
+def run(ctx, R):
+    _run_c13(ctx, R)
+    r136(ctx, R)
